@@ -330,7 +330,26 @@ def gen_source(prog):
         for m, v in members:
             L.append("    %s = %d" % (m, v))
         L.append("")
+    done_factories = set()
     for c in prog["classes"]:
+        if c.get("factory"):
+            # classes produced by one factory function share their __qualname__ ("<factory>.<locals>.Shared")
+            fn = c["factory"]
+            if fn in done_factories:
+                continue
+            done_factories.add(fn)
+            members = [x for x in prog["classes"] if x.get("factory") == fn]
+            L.append("def _fac_%s(which):" % fn)
+            for m in members:
+                L.append("    if which == %r:" % m["name"])
+                sub = gen_source({"enums": {}, "classes": [dict(m, factory=None, name="Shared")]}).split("\n")
+                i0 = sub.index("@vsc.randobj")
+                L.extend("        " + x for x in sub[i0:] if x.strip())
+                L.append("        return Shared")
+            for m in members:
+                L.append("%s = _fac_%s(%r)" % (m["name"], fn, m["name"]))
+            L.append("")
+            continue
         L.append("@vsc.randobj")
         L.append("class %s(%s):" % (c["name"], c.get("base") or "object"))
         L.append("    def __init__(self):")
